@@ -6,7 +6,7 @@ use crate::gen_sys::{SysCfg, gen_system, show_system};
 use crate::refeval::{self, Env, reachable};
 use crate::refsim::RefSim;
 use crate::refval::Val;
-use crate::sysutil::{compare_positional, environments, positional_symbols, random_val};
+use crate::sysutil::{compare_positional, positional_symbols, random_val};
 use crate::tape::{SplitMix, Tape, hash_bytes};
 use patronus::expr::{Context, ExprRef, TypeCheck};
 use patronus::system::TransitionSystem;
@@ -106,7 +106,7 @@ impl Prop for C11 {
         let mut rng = SplitMix(hash_bytes(tape));
         let text = show_system(ctx, &orig);
         let syms = positional_symbols(&orig);
-        let (envs, _) = environments(ctx, &syms, &mut rng, 14, 48);
+        let (envs, _) = crate::sysutil::environments_for(ctx, &syms, &orig.get_all_exprs(), &mut rng, 14, 48);
 
         // shared non-leaf sub-expression between two roots?
         let roots = roots_of(&orig);
